@@ -1466,6 +1466,8 @@ fn forward_device_data(
         // and skip the messages previously read while reading next time.
         // but for now, we just try to read all messages and drop the excess ones
         let mut retained_publishes = datalog.read_retained_messages(&request.filter);
+        #[cfg(feature = "verif")]
+        crate::verif::order_retained(&mut retained_publishes);
         retained_publishes.truncate(inflight_slots as usize);
 
         publishes.extend(retained_publishes.into_iter().map(|p| (p, None)));
@@ -2393,3 +2395,55 @@ fn extract_group(filter: &str) -> Option<(String, String)> {
 // //         dbg!(trackers);
 // //     }
 // // }
+
+#[cfg(feature = "verif")]
+impl Router {
+    /// Clone of the channel every link uses to talk to this router (the private `link()`).
+    pub fn verif_link(&self) -> Sender<(ConnectionId, Event)> {
+        self.link()
+    }
+
+    /// Run the private `events()` once.
+    pub fn verif_events(&mut self, id: ConnectionId, data: Event) {
+        self.events(id, data)
+    }
+
+    /// Run the private `consume()` once; `false` when it had nothing to do.
+    pub fn verif_consume(&mut self) -> bool {
+        self.consume().is_some()
+    }
+
+    /// Number of events waiting on the router channel.
+    pub fn verif_pending_events(&self) -> usize {
+        self.router_rx.len()
+    }
+
+    /// Take one event from the router channel without handling it.
+    pub fn verif_take_event(&mut self) -> Option<(ConnectionId, Event)> {
+        self.router_rx.try_recv().ok()
+    }
+
+    /// Run the real `run_inner()` once if (and only if) it would not block on the
+    /// event channel. When only a stale id is queued, performs the single `consume()`
+    /// the real loop would perform before blocking. Returns whether a turn was run.
+    pub fn verif_turn(&mut self) -> bool {
+        let head_live = self
+            .scheduler
+            .readyqueue
+            .front()
+            .is_some_and(|id| self.scheduler.trackers.contains(*id));
+
+        if !head_live && self.router_rx.is_empty() {
+            if !self.scheduler.readyqueue.is_empty() {
+                self.consume();
+            }
+            return false;
+        }
+
+        self.run_inner().is_ok()
+    }
+}
+
+#[cfg(feature = "verif-snapshot")]
+#[path = "verif_snapshot.rs"]
+pub mod verif_snapshot;
